@@ -59,6 +59,9 @@ structure Slot where
   isRecv : Bool := false      -- is_dynamic_recv
   deriving DecidableEq, Repr
 
+/-- `array_of_requests[i] = MPI_REQUEST_NULL` (the callback record stays). -/
+def Slot.clear (sl : Slot) : Slot := { sl with req := none }
+
 def amSlot (tag r a : Nat) : Slot := { req := some (.am tag r), cb := .am tag r, st1 := a, isRecv := false }
 
 /-! ## One registered tag: pool of persistent receives and its tested window -/
@@ -97,14 +100,16 @@ def Pool.complete (p : Pool) (j : Nat) : Pool :=
     a record that does not describe its own slot, or `MPI_Start` on an active request: those
     return `false` (the machine then enters its error state; theorem `C14_slots` shows this is
     unreachable). -/
+def Pool.restart (p : Pool) (j r : Nat) (sl : Slot) : Pool :=
+  { p with act := p.act.set r true, inw := p.inw.set r false, win := p.win.set j sl.clear }
+
 def Pool.done (p : Pool) (j : Nat) : Pool × Bool :=
   match p.win[j]? with
   | some sl =>
     match sl.cb with
     | .am tg r =>
       if tg = p.id ∧ sl.st1 = p.base + j ∧ r < p.n ∧ p.act.getD r true = false then
-        ({ p with act := p.act.set r true, inw := p.inw.set r false,
-                  win := p.win.set j { sl with req := none } }, true)
+        (p.restart j r sl, true)
       else (p, false)
     | _ => (p, false)
   | none => (p, false)
@@ -177,7 +182,7 @@ def DynR.install (d : DynR) (x : Dyn) : DynR :=
     MPI_REQUEST_NULL into the array. -/
 def DynR.complete (d : DynR) (j : Nat) : DynR :=
   match d.slots[j]? with
-  | some sl => { d with slots := d.slots.set j { sl with req := none } }
+  | some sl => { d with slots := d.slots.set j sl.clear }
   | none => d
 
 /-- `if (cb->is_dynamic_recv) mpi_funnelled_num_recv_req_in_arr--` for the record at offset `j`. -/
